@@ -927,6 +927,63 @@ func (g *GCfg) GenEnv(t *rapid.T) *Node {
 	return e
 }
 
+// Lighten bounds the work a case can cause. References are evaluated without a memo (the result depends on which
+// references are active), so a read costs about (number of expression settings)! x the product of their
+// reference counts when the settings refer to each other: a heavy tail of cases that finish only after minutes.
+// While that weight exceeds limit the expression with the most references becomes a literal. It returns how many
+// expressions were replaced.
+func Lighten(limit float64, trees ...*Node) int {
+	var exprs []*Node
+	var walk func(n *Node)
+	walk = func(n *Node) {
+		if n == nil {
+			return
+		}
+		if n.K == "expr" {
+			exprs = append(exprs, n)
+		}
+		for _, c := range n.Vals {
+			walk(c)
+		}
+	}
+	for _, t := range trees {
+		walk(t)
+	}
+	count := func(n *Node) int {
+		k := 0
+		n.AnyPart(func(p *Part) bool {
+			if p.IsVar {
+				k++
+			}
+			return false
+		})
+		return k
+	}
+	replaced := 0
+	for {
+		weight, live, heaviest, max := 1.0, 0, -1, 0
+		for i, e := range exprs {
+			if e.K != "expr" {
+				continue
+			}
+			c := count(e)
+			if c == 0 {
+				continue
+			}
+			live++
+			weight *= float64(c) * float64(live)
+			if c > max {
+				heaviest, max = i, c
+			}
+		}
+		if weight <= limit || heaviest < 0 {
+			return replaced
+		}
+		*exprs[heaviest] = Node{K: "str", S: "s"}
+		replaced++
+	}
+}
+
 // GenEnvLayer draws settings that are merged into an Env config later on.
 func (g *GCfg) GenEnvLayer(t *rapid.T) *Node {
 	l := &Node{K: "obj"}
